@@ -356,6 +356,29 @@ func doCanon(line int, r J, stats map[string]int) {
 	rep := func(what, got, ar string) {
 		emit(J{"line": line, "what": what, "got": got, "want": fmt.Sprintf("%x", want), "arena": ar, "v": v})
 	}
+	// the same value in a layout with garbage in the list padding (generated by the spec): same canonical bytes
+	if dirty := wordsToBytes(r["dirty"]); !hascap && len(dirty) > 0 {
+		func() {
+			defer func() {
+				if p := recover(); p != nil {
+					rep("panic", fmt.Sprint(p), "dirty-padding")
+				}
+			}()
+			md := &capnp.Message{Arena: capnp.SingleSegment(dirty)}
+			rd, err := md.Root()
+			if err != nil {
+				rep("dirty-unreadable", err.Error(), "dirty-padding")
+				return
+			}
+			got, err := capnp.Canonicalize(rd.Struct())
+			stats["canonicalize_calls"]++
+			if err != nil {
+				rep("error", err.Error(), "dirty-padding")
+			} else if !bytes.Equal(got, want) {
+				rep("bytes", fmt.Sprintf("%x", got), "dirty-padding")
+			}
+		}()
+	}
 	for _, aa := range arenas {
 		func() {
 			defer func() {
